@@ -576,6 +576,125 @@ func main() {
 		}
 	})
 	total(st)
+	// sessions: one Encoder and one Decoder used for a whole history of calls. The reference is the history
+	// replayed on fresh objects: every Encode must append exactly what a fresh Marshal with the encoder's
+	// current byte order and SRID produces, and one Decoder must read the stream back member by member.
+	menu := []orb.Geometry{
+		orb.Point{special[4], 2},
+		orb.LineString{{1, 2}, {3, special[5]}},
+		orb.Polygon{{{1, 2}, {3, 4}, {5, 6}, {1, 2}}},
+		orb.MultiPoint{},
+		orb.Collection{orb.Point{1, 2}, orb.MultiLineString{{{3, 4}, {5, 6}}}},
+		orb.LineString(nil),
+		orb.Ring{{1, 2}, {3, 4}, {1, 2}},
+	}
+	type sop struct {
+		kind  int // 0 order, 1 default srid, 2 encode, 3 encode with srid argument
+		order binary.ByteOrder
+		srid  int
+		g     int
+	}
+	var sops []sop
+	for gi := range menu {
+		sops = append(sops, sop{kind: 2, g: gi})
+	}
+	sops = append(sops, sop{kind: 0, order: binary.BigEndian}, sop{kind: 0, order: binary.LittleEndian})
+	sops = append(sops, sop{kind: 1, srid: 4326}, sop{kind: 1, srid: 0}, sop{kind: 1, srid: 257})
+	for gi := range menu {
+		sops = append(sops, sop{kind: 3, g: gi, srid: 0}, sop{kind: 3, g: gi, srid: 12336})
+	}
+	depth := ev.Pick(r, 4, 5)
+	st = r.Explore("sessions", fmt.Sprintf("every history of <= %d calls over %d operations (Encode of %d geometries with and without an SRID argument, SetByteOrder x2, SetSRID x3) on one ewkb.Encoder and, for the histories without SRIDs, one wkb.Encoder; the stream read back by one Decoder", depth, len(sops), len(menu)), mc.Opts{MaxDev: -1, Split: 2, NewLocal: newLocal}, func(c *mc.Ctx) {
+		l := c.Local().(*loc)
+		n := 1 + c.Choose(depth)
+		hist := make([]sop, n)
+		plain := true
+		for i := range hist {
+			hist[i] = sops[c.Choose(len(sops))]
+			if hist[i].kind == 1 || hist[i].kind == 3 {
+				plain = false
+			}
+		}
+		var ebuf, wbuf bytes.Buffer
+		ee := ewkb.NewEncoder(&ebuf)
+		we := wkb.NewEncoder(&wbuf)
+		order, srid := ewkb.DefaultByteOrder, ewkb.DefaultSRID // documented initial state of ewkb.NewEncoder
+		type rec struct {
+			g    orb.Geometry
+			srid int
+		}
+		var written []rec
+		encodes := 0
+		for i, op := range hist {
+			switch op.kind {
+			case 0:
+				order = op.order
+				ee.SetByteOrder(op.order)
+				we.SetByteOrder(op.order)
+			case 1:
+				srid = op.srid
+				ee.SetSRID(op.srid)
+			default:
+				s := srid
+				before := ebuf.Len()
+				var err error
+				if op.kind == 3 {
+					s = op.srid
+					err = ee.Encode(menu[op.g], s)
+				} else {
+					err = ee.Encode(menu[op.g])
+				}
+				want, _ := ewkb.Marshal(menu[op.g], s, order)
+				if err != nil || !bytes.Equal(ebuf.Bytes()[before:], want) {
+					c.Failf("session-encode", "call #%d of the history on one ewkb.Encoder wrote %x err=%v, a fresh ewkb.Marshal(g, %d, %v) gives %x | history=%+v", i, ebuf.Bytes()[before:], err, s, order, want, hist)
+					return
+				}
+				if plain {
+					before := wbuf.Len()
+					err := we.Encode(menu[op.g])
+					want, _ := wkb.Marshal(menu[op.g], order)
+					if err != nil || !bytes.Equal(wbuf.Bytes()[before:], want) {
+						c.Failf("session-encode", "call #%d of the history on one wkb.Encoder wrote %x err=%v, a fresh wkb.Marshal(g, %v) gives %x | history=%+v", i, wbuf.Bytes()[before:], err, order, want, hist)
+						return
+					}
+				}
+				if !isTopNil(menu[op.g]) {
+					written = append(written, rec{refgeom.Normal(menu[op.g], false), s})
+				}
+				encodes++
+			}
+		}
+		ed := ewkb.NewDecoder(bytes.NewReader(ebuf.Bytes()))
+		for i, w := range written {
+			got, gs, err := ed.Decode()
+			l.calls++
+			if err != nil || refgeom.Struct(got) != refgeom.Struct(w.g) || gs != w.srid {
+				c.Failf("session-decode", "member #%d read by one ewkb.Decoder from the stream = %v srid=%d err=%v, want %v srid=%d | history=%+v", i, got, gs, err, w.g, w.srid, hist)
+				return
+			}
+		}
+		if g, _, err := ed.Decode(); err == nil {
+			c.Failf("session-decode", "ewkb.Decoder returned %v after the last member of the stream | history=%+v", g, hist)
+		}
+		if plain {
+			wd := wkb.NewDecoder(bytes.NewReader(wbuf.Bytes()))
+			for i, w := range written {
+				got, err := wd.Decode()
+				l.calls++
+				if err != nil || refgeom.Struct(got) != refgeom.Struct(w.g) {
+					c.Failf("session-decode", "member #%d read by one wkb.Decoder from the stream = %v err=%v, want %v | history=%+v", i, got, err, w.g, hist)
+					return
+				}
+			}
+			if g, err := wd.Decode(); err == nil {
+				c.Failf("session-decode", "wkb.Decoder returned %v after the last member of the stream | history=%+v", g, hist)
+			}
+		}
+		if encodes >= 2 {
+			c.NonTrivial()
+		}
+	})
+	total(st)
 	r.Sample(map[string]interface{}{"geometry": "MultiLineString{{{NaN(0x7ff8000000000001),-0}},{}}", "srid": 12336, "order": "BE", "paths": "Unmarshal, Decoder, Scanner(nil) x {raw,hex,HEX,\\xhex}, ScannerPrefixSRID, 11 typed destinations"})
 	r.Finish()
 }
